@@ -6,7 +6,7 @@ from oracle_util import *  # noqa
 from protocol import from_real
 
 ID = "C06"
-LEAN_MODULE = ["SCoda.Props.C06", "SCoda.Props.C06b", "SCoda.Props.Notes", "SCoda.Props.AbsTie2", "SCoda.Props.UtilTie"]
+LEAN_MODULE = ["SCoda.Props.C06", "SCoda.Props.C06b", "SCoda.Props.Notes", "SCoda.Props.AbsTie2", "SCoda.Props.UtilTie", "SCoda.Props.SortTie"]
 LEVEL = "proof"
 CLAUSES = [
     ("every remaining note-off lies an allowed duration after a remaining note-on of its key; the operation never fails", ["SCoda.C06.durations", "SCoda.C06.total", "SCoda.C06.pairings_twoEl"]),
@@ -24,6 +24,8 @@ CLAUSES = [
      ["SCoda.AbsTie2.quantiseNoteLengths_eq", "SCoda.AbsTie2.quantiseNoteLengths_init", "SCoda.AbsTie2.pairings_eq", "SCoda.AbsTie2.pairings_init", "SCoda.AbsTie2.findMinimalDistance_eq"]),
     ('TIE BY TRANSLATION, numeric helpers: scoda/misc/util.py is re-translated statement by statement on every run (Gen/UtilFns.lean, tools/py2lean_util.py: one operator of the PyNum int/float tower per Python operator — floats as exact rationals, no rounding modelled —, range/enumerate/zip/comprehensions, while with proved fuel, numpy.digitize(right=True) modelled explicitly) and tied to the hand models and to the dumped tables: get_default_note_values() evaluated from the translated source = the dumped table the theorems quantify over; dotted and tuplet durations as the hand transcription',
      ["SCoda.UtilTie.getDefaultNoteValues_eq", "SCoda.UtilTie.default_tables_from_source", "SCoda.UtilTie.getDottedNoteDurations_int", "SCoda.UtilTie.getTupletDurations_eq"]),
+    ("TIE BY TRANSLATION of the sort that every absolute-view operation goes through: AbsoluteSequence.sort (its list.sort call and the key lambda (time, -1 if channel is None else channel, message_type, note)), MessageType.__lt__ and the declaration order of the enum members are re-translated expression by expression on every run (Gen/SortFns.lean, tools/py2lean_sort.py; Python's == and < on None / int / enum members, tuple comparison, list.index and list.sort are the language model Model/SortLib.lean) and proved equal to the hand model: on every message list whose keys Python can compare (the times are all None or all ints; two messages equal in (time, channel, type) have both notes None or both ints) the translated sort returns exactly sortAbs l, through any projection (heap references, tagged messages); outside that domain it raises TypeError, as the real code does (replayed: a NOTE_ON with a note and a hand-built NOTE_ON without one on the same tick and channel; a message without a time in a timed sequence; two TIME_SIGNATUREs on one tick and channel are inside the domain); keyLe a b holds iff key(b) < key(a) is False; Python's key order is a strict weak order on the domain and ANY stable sort by it (a permutation that is sorted and keeps the relative order of equal keys) is sortAbs l — modelling CPython's timsort by an insertion sort is a theorem, the one assumption left is that list.sort is a stable comparison sort. This discharges the list.sort links of tools/py2lean.py (sort -> sortAbs) and tools/py2lean_abs2.py (sortRefs), which until now were only fingerprinted (tools/conventions.py)",
+     ["SCoda.SortTie.sort_eq", "SCoda.SortTie.sortOf_eq_isort", "SCoda.SortTie.sort_raises", "SCoda.SortTie.sortOf_raises", "SCoda.SortTie.sort_ok_iff", "SCoda.SortTie.keyLe_iff", "SCoda.SortTie.keyLt_eq", "SCoda.SortTie.keyLt_ok_iff_comparable", "SCoda.SortTie.messageTypeLt_eq", "SCoda.SortTie.messageTypeLt_nonmember", "SCoda.SortTie.members_eq", "SCoda.SortTie.memberNames_eq", "SCoda.SortTie.generated_order_strictWeakOrder", "SCoda.SortTie.any_stable_sort_eq_sortAbs", "SCoda.SortTie.stable_sort_is_isortBy", "SCoda.SortTie.isortBy_is_stable_sort", "SCoda.SortTie.sortDom_of_wellFormed", "SCoda.SortTie.sortRefs_discharged", "SCoda.SortTie.viewSort_discharged", "SCoda.SortTie.sort_eq_statement_false", "SCoda.SortTie.keyLe_iff_statement_false"]),
 ]
 RULE = ("well-formed multi-channel note sets (<=8 notes, back-to-back repeated pitches, very short notes) x value lists "
         "(defaults, lists with duplicates, single values) x extension on/off; non-trivial = some note's duration not in the list")
